@@ -2,7 +2,7 @@
    unquote) over C03/Model.v (quote, converters, matcher).  roundtrip c v says: to_url builds a text u,
    the delivered text unquote u is in the converter's language, and to_python of it is v. *)
 From Coq Require Import ZArith.
-From Wz Require Import lib.Bytes lib.Utf8 C03.Gen C03.Trie C03.Model C03.Proofs C04.Model C04.Proofs C04.MapProofs.
+From Wz Require Import lib.Bytes lib.Utf8 C03.Gen C03.Trie C03.Model C03.Proofs C04.Model C04.Proofs C04.MapProofs C04.SubdomainProofs.
 Open Scope N_scope.
 
 (* percent-encoding: what quote produces (any safe set without the percent sign) is read back by unquote *)
@@ -128,3 +128,37 @@ Theorem C04_canon_text : forall c s,
   is_text_conv c = true -> valid_text s = true -> in_lang (lang_of c) s = true -> canon c (VStr s) s.
 Proof. exact canon_text. Qed.
 Print Assumptions C04_canon_text.
+
+(* the same with a subdomain / host part on the rules (dom_built: the rule's domain part is a host-safe literal
+   or pre<conv:name>post with a value whose built text is used as is - host names are not percent-decoded;
+   map_distinct_dom: any isolating domain part, distinct literal first segments), and with float values:
+   the request goes to the host dt the URL was built for, is matched by the building rule with the built
+   values, and the URL rebuilt from the match result is the same.  unraw reads float(t) as the float whose
+   str() is t, which is what the float contract (C04_float_roundtrip) says for the text of a canonical float. *)
+Theorem C04_build_match_build_subdomain : forall m r vals dt dcaps dvs ts caps vs tts restP tcaps tvs meth ws,
+  map_distinct_dom m -> In r (m_rules m) ->
+  dom_built (r_defaults r) vals (r_dom r) dt dcaps dvs ->
+  segs_built (r_defaults r) vals (r_segs r) ts caps vs ->
+  tail_built (r_defaults r) vals (is_branch r) (r_tail r) tts restP tcaps tvs ->
+  NoDup (seg_names (r_dom r) ++ flat_map seg_names (r_segs r) ++ match r_tail r with Some n => [n] | None => [] end) ->
+  no_raw vals -> rmethod_ok r meth = true -> r_websocket r = ws ->
+  exists path,
+    build_rule r vals = BOk (dt, path)
+    /\ matcher_run m (trie_of m) dt (path_part (unquote path)) meth ws = MOk rule (list (str * value)) r (dvs ++ vs ++ tvs)
+    /\ build_rule r (unraw_all (dvs ++ vs ++ tvs)) = BOk (dt, path).
+Proof. exact build_match_build_dom. Qed.
+Print Assumptions C04_build_match_build_subdomain.
+
+(* satisfiable: Subdomain('api', [Rule('/users/<int:id>/x-<string:n>')]) next to Rule('/all/') *)
+Example C04_subdomain_example :
+  map_distinct_dom ex_map5 /\ dom_built [] ex_vals (SLit API) API [] []
+  /\ matcher_run ex_map5 (trie_of ex_map5) API
+       (path_part (unquote ([47] ++ USERS ++ [47; 52; 50; 47; 120; 45; 37; 67; 51; 37; 65; 57; 37; 50; 48; 37; 50; 53]))) GET false
+     = MOk rule (list (str * value)) ex_users_api [([105; 100], VInt 42); ([110], VStr [233; 32; 37])].
+Proof. exact ex_map5_ok. Qed.
+Print Assumptions C04_subdomain_example.
+
+Theorem C04_canon_float : forall sg t,
+  in_lang (LFloat sg) t = true -> ascii t = true -> canon (CFloat sg) (VFloat t) t.
+Proof. exact canon_float. Qed.
+Print Assumptions C04_canon_float.
